@@ -42,6 +42,79 @@ func storesParamToField(fn *ssa.Function, idx int, field string) bool {
 	return found
 }
 
+// storesValueToSignal: f stores a value satisfying isVal into Task.signal, directly or by handing it to an in-module
+// callee that does (depth-bounded); returns the instruction of f where that happens.
+func storesValueToSignal(f *ssa.Function, isVal func(ssa.Value) bool, depth int) ssa.Instruction {
+	if depth > 3 {
+		return nil
+	}
+	var at ssa.Instruction
+	allInstrs(f, func(in ssa.Instruction) {
+		if at != nil {
+			return
+		}
+		switch x := in.(type) {
+		case *ssa.Store:
+			if isVal(x.Val) {
+				if fa, ok := x.Addr.(*ssa.FieldAddr); ok && fieldName(fa) == "signal" && strings.HasSuffix(namedOf(fa.X.Type()), ".Task") {
+					at = in
+				}
+			}
+		case *ssa.Call:
+			if g := x.Call.StaticCallee(); g != nil && inModule(g) && len(g.Blocks) > 0 {
+				for ai, a := range x.Call.Args {
+					if isVal(a) && ai < len(g.Params) {
+						prm := g.Params[ai]
+						if storesValueToSignal(g, func(v ssa.Value) bool { return v == ssa.Value(prm) }, depth+1) != nil {
+							at = in
+						}
+					}
+				}
+			}
+		}
+	})
+	return at
+}
+
+// plumbsThenRuns: in f the value reaches Task.signal at an instruction that precedes the RunStmts call — both may sit
+// in f itself or, together, inside a helper that f hands the value to.
+func plumbsThenRuns(f *ssa.Function, isVal func(ssa.Value) bool, runStmts *ssa.Function, depth int) (bool, []*ssa.Function) {
+	if depth > 3 {
+		return false, nil
+	}
+	at := storesValueToSignal(f, isVal, 0)
+	var rs *ssa.Call
+	allInstrs(f, func(in ssa.Instruction) {
+		if call, ok := in.(*ssa.Call); ok && call.Call.StaticCallee() == runStmts {
+			rs = call
+		}
+	})
+	if at != nil && rs != nil && precedes(at, rs) {
+		return true, []*ssa.Function{f}
+	}
+	ok := false
+	var via []*ssa.Function
+	allInstrs(f, func(in ssa.Instruction) {
+		call, isC := in.(*ssa.Call)
+		if !isC || ok {
+			return
+		}
+		g := call.Call.StaticCallee()
+		if g == nil || !inModule(g) || len(g.Blocks) == 0 || g == f {
+			return
+		}
+		for ai, a := range call.Call.Args {
+			if isVal(a) && ai < len(g.Params) {
+				prm := g.Params[ai]
+				if sub, v := plumbsThenRuns(g, func(v ssa.Value) bool { return v == ssa.Value(prm) }, runStmts, depth+1); sub {
+					ok, via = true, append([]*ssa.Function{f}, v...)
+				}
+			}
+		}
+	})
+	return ok, via
+}
+
 func checkC14(c *Ctx) {
 	r := c.R
 	r.Explanation = "Decides for both interpreters (pkg/engine/runtime, pkg/engine/runtimev2) the structural chain that makes cancellation work for every program and every poll index: (1) SIGNAL-PLUMB: the Signal parameter of Script.Run reaches the `signal` field of the task that is handed to RunStmts (a store of the parameter, direct or through the init helper, dominating the RunStmts call); RefRun hands the caller's ctx.signal to the callee task; (2) POLL-FN: ProcExit invokes ExitSignal() under no condition other than `!procExit` and `signal != nil`, latches procExit=true on a true answer and returns the latch; StmtRetrun returns true whenever ProcExit does; (3) POLL-IN-CYCLE: every natural loop of the statement-list executor and of the for / for-in executors contains a StmtRetrun poll whose true edge leaves the loop and whose block dominates every latch of that loop (so even an empty body cannot spin without polling); (4) POLL-EXIT-SUCCESS: from the poll's exit edge every path reaches a nil-error return without evaluating another statement or expression. Not decided: wall-clock promptness, host ExitSignal implementations, the prefix-of-effects clause as behaviour (follows from 3+4 by induction on the tree, which the checker does not prove)."
@@ -78,61 +151,28 @@ func c14For(c *Ctx, pp string) {
 		r.Ob("SIGNAL-PLUMB", tag+".Script.Run has a Signal parameter", t.Pos(run.Pos()), false, "no parameter with an ExitSignal method")
 	} else {
 		sig := run.Params[sigIdx]
-		var plumb ssa.Instruction
-		allInstrs(run, func(in ssa.Instruction) {
-			switch x := in.(type) {
-			case *ssa.Store:
-				if x.Val == ssa.Value(sig) {
-					if fa, ok := x.Addr.(*ssa.FieldAddr); ok && fieldName(fa) == "signal" && strings.HasSuffix(namedOf(fa.X.Type()), ".Task") {
-						plumb = in
-					}
-				}
-			case *ssa.Call:
-				if f := x.Call.StaticCallee(); f != nil && inModule(f) {
-					for ai, a := range x.Call.Args {
-						if a == ssa.Value(sig) && storesParamToField(f, ai, "signal") {
-							plumb = in
-							r.Fn(relName(f))
-						}
-					}
-				}
-			}
-		})
-		var rs *ssa.Call
-		allInstrs(run, func(in ssa.Instruction) {
-			if call, ok := in.(*ssa.Call); ok && call.Call.StaticCallee() == runStmts {
-				rs = call
-			}
-		})
-		ok := plumb != nil && rs != nil && precedes(plumb, rs)
-		detail := "the signal parameter must be stored into Task.signal before RunStmts is called"
-		if plumb == nil {
-			detail = fmt.Sprintf("parameter `%s` of %s.Script.Run is never stored into the task's signal field (referrers: %d): ProcExit's `signal != nil` is constantly false and no loop can be cancelled", sig.Name(), tag, len(*sig.Referrers()))
+		ok, via := plumbsThenRuns(run, func(v ssa.Value) bool { return v == ssa.Value(sig) }, runStmts, 0)
+		for _, f := range via {
+			r.Fn(relName(f))
+		}
+		detail := "the signal parameter must be stored into Task.signal before RunStmts is called (directly, or inside the helpers it is handed to)"
+		if !ok {
+			detail = fmt.Sprintf("parameter `%s` of %s.Script.Run does not reach the task's signal field ahead of RunStmts (referrers: %d): ProcExit's `signal != nil` is constantly false and no loop can be cancelled", sig.Name(), tag, len(*sig.Referrers()))
 		}
 		r.Ob("SIGNAL-PLUMB", tag+".Script.Run signal -> Task.signal", t.Pos(run.Pos()), ok, detail)
 	}
 	// RefRun (v1 only)
 	if rr := t.Method(pp, "Script", "RefRun"); rr != nil {
 		r.Fn(relName(rr))
-		ok := false
-		allInstrs(rr, func(in ssa.Instruction) {
-			if call, okc := in.(*ssa.Call); okc {
-				if f := call.Call.StaticCallee(); f != nil && inModule(f) {
-					for ai, a := range call.Call.Args {
-						// the signal of the task RefRun was called with (its parameter), not of the fresh task
-						callerSig := false
-						for _, prm := range rr.Params {
-							if path(a) == prm.Name()+".signal" && strings.HasSuffix(prm.Type().String(), "Task") {
-								callerSig = true
-							}
-						}
-						if callerSig && storesParamToField(f, ai, "signal") {
-							ok = true
-						}
-					}
+		// the signal of the task RefRun was called with (its parameter), not of the fresh task
+		ok, _ := plumbsThenRuns(rr, func(v ssa.Value) bool {
+			for _, prm := range rr.Params {
+				if path(v) == prm.Name()+".signal" && strings.HasSuffix(prm.Type().String(), "Task") {
+					return true
 				}
 			}
-		})
+			return false
+		}, runStmts, 0)
 		r.Ob("SIGNAL-PLUMB", tag+".Script.RefRun passes the caller's signal", t.Pos(rr.Pos()), ok, "a script reached through use() must observe the same cancellation signal")
 	}
 	// every store to Task.signal in the package: at least one non-nil
@@ -240,7 +280,7 @@ func c14For(c *Ctx, pp string) {
 			for b := range l.Blocks {
 				for _, in := range b.Instrs {
 					call, ok := in.(*ssa.Call)
-					if !ok || call.Call.StaticCallee() != stmtRet {
+					if !ok || (call.Call.StaticCallee() != stmtRet && call.Call.StaticCallee() != procExit) {
 						continue
 					}
 					iff, isIf := b.Instrs[len(b.Instrs)-1].(*ssa.If)
@@ -277,10 +317,54 @@ func c14For(c *Ctx, pp string) {
 				}
 			}
 			if poll == nil {
-				r.Ob("POLL-IN-CYCLE", key, pos, false, "this loop has a cycle on which StmtRetrun() is not polled with an exit on true: an iteration can repeat forever after the signal fired")
+				r.Ob("POLL-IN-CYCLE", key, pos, false, "this loop has a cycle on which neither StmtRetrun() nor ProcExit() is polled with an exit on true: an iteration can repeat forever after the signal fired")
 				continue
 			}
-			r.Ob("POLL-IN-CYCLE", key, t.Pos(poll.Pos()), true, "StmtRetrun poll dominates every back edge and its true edge leaves the loop")
+			r.Ob("POLL-IN-CYCLE", key, t.Pos(poll.Pos()), true, poll.Call.StaticCallee().Name()+" poll dominates every back edge and its true edge leaves the loop")
+			// (3b) the body is where the signal is observed (RunStmts polls after each statement and returns): between
+			// the body's return and the next evaluation in the same iteration (post statement, next element, …) the
+			// executor must consult the latch, or that evaluation runs after the signal was observed
+			if name != "RunStmts" {
+				isPoll := func(in ssa.Instruction) bool {
+					call, ok := in.(*ssa.Call)
+					if !ok || (call.Call.StaticCallee() != stmtRet && call.Call.StaticCallee() != procExit) {
+						return false
+					}
+					b := call.Block()
+					iff, isIf := b.Instrs[len(b.Instrs)-1].(*ssa.If)
+					return isIf && iff.Cond == ssa.Value(call) && (!l.Blocks[b.Succs[0]] || leadsOut(b.Succs[0], l))
+				}
+				nb := 0
+				for _, b := range fn.Blocks {
+					if !l.Blocks[b] {
+						continue
+					}
+					for _, in := range b.Instrs {
+						body, ok := in.(*ssa.Call)
+						if !ok || body.Call.StaticCallee() != runStmts {
+							continue
+						}
+						nb++
+						late := ""
+						for _, b2 := range fn.Blocks {
+							if !l.Blocks[b2] {
+								continue
+							}
+							for _, in2 := range b2.Instrs {
+								ev, ok := in2.(*ssa.Call)
+								if !ok || ev == body || ev.Call.StaticCallee() == nil || !evalFns[ev.Call.StaticCallee()] {
+									continue
+								}
+								if reachAvoid(body, ev, isPoll) {
+									late = fmt.Sprintf("%s at %s is reachable from the body without a latch test in between", ev.Call.StaticCallee().Name(), t.Pos(ev.Pos()))
+								}
+							}
+						}
+						r.Ob("POLL-IN-CYCLE", fmt.Sprintf("%s body #%d is followed by a latch test before anything else is evaluated", key, nb), t.Pos(body.Pos()), late == "",
+							"after the body returned (possibly because a poll inside it observed the signal) nothing may be evaluated before StmtRetrun()/ProcExit() is consulted: "+late)
+					}
+				}
+			}
 			// (4) from the exit edge: no evaluation before a success return
 			okExit, why := pollExitClean(pollBlk.Succs[exitIdx], l, evalFns, map[*ssa.BasicBlock]bool{})
 			r.Ob("POLL-EXIT-SUCCESS", key, t.Pos(poll.Pos()), okExit, "after the poll reports true the executor must return success without evaluating anything else"+why)
